@@ -34,7 +34,7 @@
 From Coq Require Import ZArith List Bool.
 From Batchie Require Import Model.Orchestrate Proofs.C19Base Proofs.C19Canon Proofs.C19Step Proofs.C19Main
   Proofs.C19Invocation Proofs.C19InvocationThm Generated.SrcOrchestrate Proofs.C19Source
-  Generated.SrcOrchMain Proofs.C19SourceMain.
+  Generated.SrcOrchMain Proofs.C19SourceMain Generated.SrcOrchCmd Proofs.C19SourceCmd.
 Import ListNotations.
 
 (* For EVERY crash schedule (any number of crashes, at any event of any call), batch size, number of
@@ -516,4 +516,49 @@ Example C19_source_main_rerun_mid_batch :
    | _ => False
    end) /\
   src_main 4 1 (mka NProspective 3) [] (mkw f [full; full; full; full] []) = MNoFuel.
+Proof. vm_compute. repeat split; reflexivity. Qed.
+
+(* ---- the four run_* command builders, translated (Generated/SrcOrchCmd.v, configurations C19_RUN_INITIAL etc.) ----
+   The translated run_next_* functions above CALL these translations (src_run_initial_plate ...), not a launch primitive.  A
+   command line is the list of its words (string literals as their code points, get_main_nf_file(), screen paths, the job
+   directory, ...); `+ extra_args`, the optional `--excludes=` word, the logged ' '.join (TypeError on a None item) and
+   subprocess.check_call come from the translation.  check_call's meaning reads the words the way main.nf and the three
+   workflows do (Orchestrate.launch_of_words: --mode selects the workflow, --initialize true/otherwise selects --screen vs
+   --training_screen / --test_screen, --outdir is where the step's files are published, --thetas / --distance_matrix /
+   --excludes feed NEXT_BATCH_PLATE).  launch_cmd done s (Some l) = the actions done so far followed by ALaunch s l;
+   launch_cmd done s None = TypeError (why 9) after `done`. *)
+
+(* `nextflow run main.nf --mode retrospective --screen S --name N --outdir D --initialize true -work-dir D/work` + extra words
+   is the launch LInit S for the job directory D *)
+Theorem C19_model_is_source_run_initial_plate : forall acts o scr nm extra,
+  src_run_initial_plate acts o scr nm extra = launch_cmd acts o (option_map LInit scr).
+Proof. exact src_run_initial_plate_is_model. Qed.
+Print Assumptions C19_model_is_source_run_initial_plate.
+
+(* --training_screen gets the training screen, --test_screen the test screen, --initialize false: LFirst training test *)
+Theorem C19_model_is_source_run_first_batch_plate : forall acts o tr te nm extra,
+  src_run_first_batch_plate acts o tr te nm extra = launch_cmd acts o (first_cmd tr te).
+Proof. exact src_run_first_batch_plate_is_model. Qed.
+Print Assumptions C19_model_is_source_run_first_batch_plate.
+
+Theorem C19_model_is_source_run_first_prospective_batch_plate : forall acts o scr nm extra,
+  src_run_first_prospective_batch_plate acts o scr nm extra = launch_cmd acts o (option_map LProsp scr).
+Proof. exact src_run_first_prospective_batch_plate_is_model. Qed.
+Print Assumptions C19_model_is_source_run_first_prospective_batch_plate.
+
+(* --mode next_plate --reveal true --screen S --thetas <t>/*/thetas*.h5 --distance_matrix <t>/*/distance_matrix_chunk*.h5
+   ... [--excludes=ids]: LNext S t ids (no --excludes word when excludes is None).  Both glob patterns are those of ONE
+   directory t: at the two call sites they are the two entries of the dict get_theta_and_dist_chunks(t) returned *)
+Theorem C19_model_is_source_run_subsequent_batch_plate : forall acts o scr t nm extra excl,
+  src_run_subsequent_batch_plate acts o scr (TGlob t) (DGlob t) nm extra excl = launch_cmd acts o (next_cmd scr t excl).
+Proof. exact src_run_subsequent_batch_plate_is_model. Qed.
+Print Assumptions C19_model_is_source_run_subsequent_batch_plate.
+
+(* non-vacuity: a concrete command line; and what check_call's meaning is sensitive to - thetas and distance chunks of two
+   different directories are no launch of the model *)
+Example C19_source_run_subsequent_example :
+  src_run_subsequent_batch_plate [AMkIter 1] (1, 2) (Some SInput) (TGlob (1, 0)) (DGlob (1, 0)) tt [7; 8] (Some [3; 4])
+  = SOk [AMkIter 1; ALaunch (1, 2) (LNext SInput (1, 0) [3; 4])]
+  /\ src_run_subsequent_batch_plate [] (1, 2) (Some SInput) (TGlob (1, 0)) (DGlob (0, 0)) tt [] None = SRaised [] 8
+  /\ src_run_subsequent_batch_plate [] (1, 2) None (TGlob (1, 0)) (DGlob (1, 0)) tt [] None = SRaised [] 9.
 Proof. vm_compute. repeat split; reflexivity. Qed.
